@@ -27,7 +27,7 @@ out=/verif/notes/coverage.txt
 {
   echo "# lines of /repo/src executed by the workloads of the 17 profiles ($RUNS program runs x 3 noise families each, native engine)"
   echo "# repo $(git -C /repo rev-parse --short HEAD), harness $(git -C /verif rev-parse --short HEAD)$(git -C /verif diff --quiet || echo +dirty)"
-  $BIN/llvm-cov report $S/target/release/dh -instr-profile=$S/all.profdata /repo/src 2>/dev/null | awk 'NR==1{print "file lines missed cover"} NR>2 && $1!~/^-/{print $1, $8, $9, $10}' | column -t
+  $BIN/llvm-cov report $S/target/release/dh -instr-profile=$S/all.profdata /repo/src 2>/dev/null | awk 'NR==1{print "file lines missed cover"} NR>2 && $1!~/^-/{print $1, $8, $9, $10}'
   echo
   echo "# lines never executed (file:line: source)"
   $BIN/llvm-cov show $S/target/release/dh -instr-profile=$S/all.profdata /repo/src --show-line-counts-or-regions 2>/dev/null \
